@@ -77,9 +77,16 @@ def num_str(x):
     return repr(float(x))
 
 
+# How a state is spelt in equation strings: by name (default) or, for states declared through a range such as 'y1:4', in the
+# bracket spelling y[0], y[1], ... of the vector the range registers (used by the docs' Robertson example).  Set by render.build.
+STATE_ALIAS = {}
+
+
 def to_str(e):
     """Fully parenthesised string accepted by PyGOM's equation parser."""
     k = e[0]
+    if k == "s" and e[1] in STATE_ALIAS:
+        return STATE_ALIAS[e[1]]
     if k == "c":
         s = num_str(e[1])
         return "(%s)" % s if s.startswith("-") else s
@@ -130,6 +137,10 @@ def evaluate(e, env, ops):
     if k == "pi":
         return ops.const(math.pi)
     if k == "p":
+        if e[1] in env.get("shadow", ()):
+            # a derived parameter was defined under the name of this parameter: every occurrence of the name means the
+            # derived expression from then on
+            return evaluate(env["d"][e[1]], env, ops)
         return env["p"][e[1]]
     if k == "s":
         return env["s"][e[1]]
@@ -216,6 +227,7 @@ def make_env(m, x, t, theta, ops, wrap=None):
            "t": wrap(t, n_s),
            "p": {n: wrap(theta[i], n_s + 1 + i) for i, n in enumerate(m["params"])},
            "d": {d["name"]: d["expr"] for d in m.get("derived", [])}}
+    env["shadow"] = {d["name"] for d in m.get("derived", [])} & set(m["params"])
     return env
 
 
